@@ -191,6 +191,21 @@ PROPS = {
              "target, the reopened footer; non-trivial = a walk of length >= 1 or a successful revert",
         technique="Coq proof (footer-chain model: walk after append/compaction/revert, immutability of older footers) + lock-step over previous/revert programs",
     ),
+    "C16": dict(
+        runs=[("sync", "", "syncrun", 100, 2000, 0)],
+        corr={"model:top", "model:blocked", "model:ok", "model:closedret", "model:syncret", "driver-error", "harness-error"},
+        corr_held=False,
+        spec={"spec:top-exceeds-cap", "spec:unexpected-error", "spec:call-did-not-return",
+              "spec:close-left-writers-blocked", "spec:after-close-not-errclosed", "spec:api-call-hung"}, spec_held=False,
+        rule="MaxPreMergerBatches 1-3; 6-19 labels per case: writer goroutines calling ExecuteBatch (blocking when top is "
+             "full), merger ingest and cycle end released through the gates, synchronous NotifyMerger calls (up to 6 "
+             "pending), Close at a random point followed by NewBatch/Snapshot/Get/ExecuteBatch; after every label the "
+             "settled counts (top height, blocked writers, returned nil / ErrClosed, answered notifications) are "
+             "compared with the model; every tenth case is the stall scenario (persister wake-up test with a full ping "
+             "queue while the merger is between cycles): every API call must return within 3 s; non-trivial = some "
+             "writer was blocked by back-pressure, or the stall scenario",
+        technique="Coq proof (invariants of the wait/notify protocol over any number of writers; Close final; bounded drain) + scenario lock-step on counts, with timeouts",
+    ),
     "C17": dict(runs=[], corr=set(), corr_held=False, spec=set(), spec_held=False, rule="", technique=""),
     "C11": dict(
         runs=[TREE + (360, 6000, 28)],
